@@ -390,6 +390,10 @@ structure FlatΩ where
   /-- `TJ` number: `tx > tj_space_threshold * font_size` -/
   kern : Nat → Bool
 
+def sepList : Option Nat → List Nat
+  | some c => [c]
+  | none => []
+
 /-- `append_bounded`; `none` = the budget refused the run (`*truncated = true`). -/
 def appendBounded (acc : List Nat) (sep : Option Nat) (txt : List Nat) (limit : Option Nat)
     (mh : Bool) : Option (List Nat × Option Nat) :=
@@ -401,7 +405,7 @@ def appendBounded (acc : List Nat) (sep : Option Nat) (txt : List Nat) (limit : 
     | some m => !(utf8Len base + add > m)
     | none => true
   if fits then
-    some (base ++ (match sep' with | some c => [c] | none => []) ++ txt, sep')
+    some (base ++ sepList sep' ++ txt, sep')
   else none
 
 /-- `LineGroupGeom` reduced to its slice of the text (character offsets). -/
@@ -430,24 +434,28 @@ def recordGroup (a : Acc) (applied : Option Nat) (decodedLen : Nat) : Acc :=
 def extendGroup (a : Acc) : Acc :=
   { a with cur := a.cur.map fun g => { g with stop := a.text.length } }
 
+/-- the separator requested by a show operator (before hyphen fusion) -/
+def sepFor (Ω : FlatΩ) (i : Nat) (k : SepK) (text : List Nat) : Option Nat :=
+  match k with
+  | .none => none
+  | .nl => if text.isEmpty then none else some NL
+  | .tj => if text.isEmpty then none else (Ω.tjSep i).char?
+  | .arr _ => if text.isEmpty then none else (Ω.arrSep i (text.getLast? == some SP)).char?
+
+/-- line-group bookkeeping after a successful append -/
+def groupAfter (k : SepK) (a : Acc) (applied : Option Nat) (decodedLen : Nat) : Acc :=
+  match k with
+  | .none => extendGroup a
+  | _ => recordGroup a applied decodedLen
+
 /-- One event.  `lay` = `preserve_layout || reorder_columns`. -/
 def consume1 (Ω : FlatΩ) (mh lay : Bool) (limit : Option Nat) (i : Nat) (e : Ev) (a : Acc) : Acc :=
   if a.truncated then a else
   match e with
   | .app k txt =>
-    let sep : Option Nat :=
-      match k with
-      | .none => none
-      | .nl => if a.text.isEmpty then none else some NL
-      | .tj => if a.text.isEmpty then none else (Ω.tjSep i).char?
-      | .arr _ => if a.text.isEmpty then none else (Ω.arrSep i (a.text.getLast? == some SP)).char?
-    match appendBounded a.text sep txt limit mh with
+    match appendBounded a.text (sepFor Ω i k a.text) txt limit mh with
     | none => { a with truncated := true }
-    | some (t, applied) =>
-      let a1 := { a with text := t }
-      match k with
-      | .none => extendGroup a1
-      | _ => recordGroup a1 applied txt.length
+    | some (t, applied) => groupAfter k { a with text := t } applied txt.length
   | .kern pendingNone =>
     if Ω.kern i && !a.text.isEmpty && a.text.getLast? != some SP then
       match appendBounded a.text (some SP) [] limit mh with
